@@ -21,7 +21,7 @@ EXPLANATION = (
     '(c) every concrete primitive implements _decode/encode/dna_spec; (d) '
     'candidates are validated before a value spec is bound, and bound tests '
     'use `is not None` (0 is a bound).  The decode/encode inverse law is not decided.')
-FLOORS = {'C13.r': 15, 'C13.a': 2, 'C13.b': 3, 'C13.c': 2, 'C13.d': 2, 'C13.e': 3, 'C13.z': 2, 'C13.f': 1}
+FLOORS = {'C13.g': 1, 'C13.r': 15, 'C13.a': 2, 'C13.b': 3, 'C13.c': 2, 'C13.d': 2, 'C13.e': 3, 'C13.z': 2, 'C13.f': 1}
 FILES = ['pyglove/core/hyper/object_template.py', 'pyglove/core/hyper/categorical.py',
          'pyglove/core/hyper/numerical.py', 'pyglove/core/hyper/custom.py',
          'pyglove/core/hyper/base.py', 'pyglove/core/hyper/iter.py',
@@ -287,8 +287,36 @@ def rule_f(ctx):
          'a float placeholder encodes only float values, tested on the value as given', f.loc, '; '.join(problems))
 
 
+def rule_g(ctx):
+  """Decoding materialises a value by rebinding the decoded parts into a copy of
+  the template.  Objects on the way (choices whose candidates hold further
+  placeholders, user classes deriving state in _on_bound) rebuild their derived
+  state when they are notified: the hyper package never rebinds with
+  skip_notification=True nor under notify_on_change(False)."""
+  idx = ctx.index
+  bad = []
+  n = 0
+  for f in idx.all_funcs():
+    if not f.module.name.startswith('pyglove.core.hyper.'):
+      continue
+    for c in A.calls_in(f.node):
+      d = (A.call_name(c) or '').split('.')[-1]
+      if d in ('rebind', 'sym_rebind'):
+        n += 1
+        for kw in c.keywords:
+          if kw.arg == 'skip_notification' and A.unparse(kw.value) != 'False':
+            bad.append(f'{f.module.relpath}:{c.lineno} `{A.unparse(c, 60)}`')
+      if d == 'notify_on_change':
+        bad.append(f'{f.module.relpath}:{c.lineno} `{A.unparse(c, 60)}`')
+  ctx.ob('C13.g', 'pyglove.core.hyper#rebinds-notify', n >= 1 and not bad,
+         'values are materialised with notification on: objects between the root and a decoded part rebuild their '
+         'derived state (candidate templates, user _on_bound state)', 'pyglove/core/hyper/object_template.py:1',
+         '; '.join(bad) or 'no rebind found in hyper')
+
+
 def run(ctx):
   ctx.consult(*FILES)
+  rule_g(ctx)
   from sa.rejections import REJECTIONS as _REJ
   S.rejection_census_obligations(ctx, 'C13.r', _REJ['C13'], floor=15)
   rule_a(ctx)
